@@ -95,7 +95,7 @@ func floatOf2(d *D) int {
 
 func c02(c *Ctx) {
 	maxLen := c.N(4, 5)
-	c.Rule = fmt.Sprintf("exhaustive: arrays of 0..%d objects x every truth assignment of two boolean fields per element x %d filter shapes (AND/OR/default/chained/nested groups/nested filters/`$`-reading arguments) x 3 carriers of the array ([]any, []map[string]any, [N]any), plus single objects with the predicate true/false and arrays of primitives; random: filter queries from the grammar on random documents. Kept elements are identified by unique ids and compared with the model and with an oracle computed from the shape's truth function. Non-trivial = the array is non-empty; distinct by (query, data).", maxLen, len(shapesC02))
+	c.Rule = fmt.Sprintf("exhaustive: arrays of 0..%d objects x every truth assignment of two boolean fields per element x %d filter shapes (AND/OR/default/chained/nested groups/nested filters/`$`-reading arguments) x 3 carriers of the array ([]any, []map[string]any, [N]any), plus single objects with the predicate true/false, arrays of primitives, and arrays of 1..3 objects whose two boolean fields are each true / false / null / absent under 8 shapes (alone, AND, chained, nested group, `?`-marked): null is not true; random: filter queries from the grammar on random documents. Kept elements are identified by unique ids and compared with the model and with an oracle computed from the shape's truth function. Non-trivial = the array is non-empty; distinct by (query, data).", maxLen, len(shapesC02))
 	for n := 0; n <= maxLen; n++ {
 		for asg := 0; asg < 1<<(2*n); asg++ {
 			elems := []*D{}
@@ -174,6 +174,94 @@ func c02(c *Ctx) {
 					}
 					return ""
 				}
+			}
+		}
+	}
+	// predicates that yield null without an error on some elements (a boolean field holding null, a
+	// `?`-marked key that is absent): such an element is not one "for which the predicate is true" —
+	// alone, in an AND and in a chain (an OR with a null operand is left out: the property does not
+	// say what null OR true is)
+	{
+		tri := []*D{h.Bool(true), h.Bool(false), h.Nil(), nil} // nil = the field is absent (read under `?`)
+		isTrue := func(d *D) bool { return d != nil && d.Tag == "b" && d.B }
+		notNull := func(d *D) bool { return d != nil && d.Tag != "nil" }
+		nullShapes := []struct {
+			text     string
+			usesB    bool
+			optional bool // every key read is `?`-marked and followed by a function: an absent key is no error
+			keep     func(a, b *D) bool
+		}{{"[@.a]", false, false, func(a, b *D) bool { return isTrue(a) }}, {"[@.a,@.b]", true, false, func(a, b *D) bool { return isTrue(a) && isTrue(b) }},
+			{"[AND,@.b,@.a]", true, false, func(a, b *D) bool { return isTrue(a) && isTrue(b) }}, {"[@.b][@.a]", true, false, func(a, b *D) bool { return isTrue(a) && isTrue(b) }},
+			{"[{AND,@.a,@.b}]", true, false, func(a, b *D) bool { return isTrue(a) && isTrue(b) }},
+			{"[@.a?.Equal(true)]", false, true, func(a, b *D) bool { return isTrue(a) }},
+			{"[@.a?.IsNotNull()]", false, true, func(a, b *D) bool { return notNull(a) }},
+			{"[@.a?.IsNotNull(),@.b?.IsNull()]", true, true, func(a, b *D) bool { return notNull(a) && !notNull(b) }}}
+		maxN := c.N(3, 3)
+		for n := 1; n <= maxN; n++ {
+			total := 1
+			for i := 0; i < 2*n; i++ {
+				total *= 4
+			}
+			for asg := 0; asg < total; asg++ {
+				x := asg
+				var av, bv []*D
+				for i := 0; i < n; i++ {
+					av, bv = append(av, tri[x%4]), append(bv, tri[(x/4)%4])
+					x /= 16
+				}
+				for _, sh := range nullShapes {
+					elems := []*D{}
+					want := []int{}
+					skip := false
+					for i := 0; i < n; i++ {
+						kv := []any{"id", h.FloatD(float64(i))}
+						if av[i] != nil {
+							kv = append(kv, "a", av[i])
+						}
+						if bv[i] != nil {
+							kv = append(kv, "b", bv[i])
+						}
+						if !sh.optional && (av[i] == nil || sh.usesB && bv[i] == nil) {
+							skip = true // an absent key without `?` is an error: outside the property's domain
+						}
+						elems = append(elems, h.Obj(kv...))
+						if sh.keep(av[i], bv[i]) {
+							want = append(want, i)
+						}
+					}
+					if skip {
+						continue
+					}
+					ec := c.AddEval("$.xs"+sh.text, h.Obj("xs", h.SliceAny(elems...)), "null-predicates", true, true)
+					w := want
+					ec.Check = func(o h.Outcome) string {
+						if o.Class != "ok" {
+							return "a predicate that is null on some element raises no error: the filter must succeed; got " + o.Class
+						}
+						got, ok := idsOf(o.Val)
+						if !ok {
+							return "result is not an array of the input's elements"
+						}
+						if fmt.Sprint(got) != fmt.Sprint(w) {
+							return fmt.Sprintf("kept elements %v, the predicate is true exactly for %v (null is not true)", got, w)
+						}
+						return ""
+					}
+				}
+			}
+		}
+		// a single object whose predicate is null: null, not the object
+		for _, sh := range []string{"[@.a]", "[@.a,@.b]", "[@.zz?.Equal(true)]"} {
+			ec := c.AddEval("$.o"+sh, h.Obj("o", h.Obj("id", h.FloatD(1), "a", h.Nil(), "b", h.Bool(true))), "null-predicates-object", true, true)
+			ec.Check = func(o h.Outcome) string {
+				if o.Class != "ok" || o.Val.Tag != "nil" {
+					got := ""
+					if o.Val != nil {
+						got = short(h.Abs(o.Val))
+					}
+					return "the predicate is null, not true: null is required, got " + o.Class + " " + got
+				}
+				return ""
 			}
 		}
 	}
